@@ -178,6 +178,17 @@ fn one_tx(tx: &Tx, m: &mut MBucket, lc: &LongCfg, t: u32, r: &mut Rng, ps: u64) 
                 b.put(key(i), v.clone())?;
                 let _ = mb.put(&key(i), &v);
             }
+            // a bucket that is committed empty and deleted, still empty, by a later transaction
+            let ename = b"empty-one".to_vec();
+            if m.entries.contains_key(&ename) {
+                tx.delete_bucket(ename.clone())?;
+                let _ = m.delete_bucket(&ename);
+            } else if t % 2 == 1 {
+                tx.create_bucket(ename.clone())?;
+                let _ = m.create_bucket(&ename);
+            }
+            let b = tx.get_bucket(name.clone())?;
+            let mb = sub(m, &name);
             if t % 2 == 0 {
                 let n = b.create_bucket("nested")?;
                 let _ = mb.create_bucket(b"nested");
